@@ -18,6 +18,10 @@ CHECKS['C06'] = dict(cat='exploration', ref='4 C06',
    text='Runtime differential monitor over random nestings of ; -> \\+ with continuations, rendered with minimal parentheses so that the grammar/visitor precedence is decided by semantics; coverage of every source-reachable rewrite case of the code generator is measured from its own debug output and required.',
    note='Trusted: reference interpreters A and B (must agree); the renderer (priorities 1000/1050/1100, right associative).',
    tech='runtime differential monitoring against dual reference interpreters with rewrite-case coverage floor')
+CHECKS['C09'] = dict(cat='exploration', ref='4 C09',
+   text='Runtime differential monitor over generated programs using call/N, once/1, findall/3, = and \\= with every goal shape (inline, atom, compound with missing arguments, goal in a run-time bound variable, nested meta-calls, failing and unknown goals), in clause bodies and invoked directly through the API; all clause variables are observed at every answer so leaked bindings are seen; exceptions escaping the query are violations.',
+   note='Trusted: reference interpreters A and B (must agree). Non-callable goals are type errors and discarded; findall instances with unbound variables are compared modulo variable identity.',
+   tech='runtime differential monitoring against dual reference interpreters, per-builtin usage floors')
 PENDING = {}
 
 def main():
